@@ -20,8 +20,12 @@ import (
 
 func TestMain(m *testing.M) { hx.Main(m, "C06", nil) }
 
+var nCheck int
+
 func check(t hx.TB, test string, m *am.Module, validate bool) bool {
-	x := m.Text()
+	// every third case spells indices and IDs with redundant leading zeros (`extractvalue %s, 010` is index ten)
+	nCheck++
+	x := m.TextNoisy(am.Noise{LeadingZeros: nCheck%3 == 0})
 	hx.Trace(test, "ll", x)
 	pm, err, p := lx.Parse(x)
 	if p != nil || err != nil {
